@@ -224,8 +224,13 @@ def coq_phase(ctx: Ctx, gen_modules, prop_files, findings=(), timeout=900):
         rc, o, dt = sh(coqc_cmd(ctx.bdir) + [path], timeout)
         return path, rc, o, dt
 
+    # property files that other property files import are compiled first
+    names = {os.path.splitext(os.path.basename(p_))[0]: p_ for p_ in srcs}
+    first = [p_ for n_, p_ in names.items()
+             if any(re.search(r"Require[^.]*\b" + re.escape(n_) + r"\b", open(q_).read()) for q_ in srcs if q_ != p_)]
+    results = [comp(p_) for p_ in first]
     with cf.ThreadPoolExecutor(max_workers=14) as ex:
-        results = list(ex.map(comp, srcs))
+        results += list(ex.map(comp, [p_ for p_ in srcs if p_ not in first]))
     ctx.checker_cmds.append("coqc -q -Q coq/Lib BBLib -Q build/%s BBRun <Gen_*.v, %s>" % (
         ctx.pid, " ".join(os.path.basename(s) for s in srcs)))
     for path, rc, o, dt in results:
